@@ -71,6 +71,52 @@ func c01WriteFile(name string, content []byte, enc string) string {
 			panic(err)
 		}
 		data = d
+	default:
+		// format features: "gz:members=k" (k concatenated gzip members, boundaries anywhere, also mid-line; RFC 1952
+		// 2.2), "gz:header" (file name, comment and extra field in the header), "gz:stored" (no compression),
+		// "zst:frames=k" (k concatenated zstd frames)
+		var b bytes.Buffer
+		parts := func(k int) [][]byte {
+			var out [][]byte
+			for i := 0; i < k; i++ {
+				out = append(out, content[len(content)*i/k:len(content)*(i+1)/k])
+			}
+			return out
+		}
+		switch enc {
+		case "gz:members=2", "gz:members=3":
+			for _, part := range parts(int(enc[len(enc)-1] - '0')) {
+				w := gzip.NewWriter(&b)
+				w.Write(part)
+				w.Close()
+			}
+		case "gz:empty-first-member":
+			w := gzip.NewWriter(&b)
+			w.Close()
+			w = gzip.NewWriter(&b)
+			w.Write(content)
+			w.Close()
+		case "gz:header":
+			w := gzip.NewWriter(&b)
+			w.Name, w.Comment, w.Extra = "original name.log", "a comment", []byte{1, 2, 3, 4}
+			w.Write(content)
+			w.Close()
+		case "gz:stored":
+			w, _ := gzip.NewWriterLevel(&b, gzip.NoCompression)
+			w.Write(content)
+			w.Close()
+		case "zst:frames=2", "zst:frames=3":
+			for _, part := range parts(int(enc[len(enc)-1] - '0')) {
+				d, err := zstd.Compress(nil, part)
+				if err != nil {
+					panic(err)
+				}
+				b.Write(d)
+			}
+		default:
+			panic("unknown encoding " + enc)
+		}
+		data = b.Bytes()
 	}
 	p := Scratch() + "/c01/" + name
 	os.MkdirAll(Scratch()+"/c01", 0o755)
@@ -86,7 +132,7 @@ func c01Run(c *Ctx, cs c01Case, content []byte) {
 	c01Seq++
 	ext := ".txt"
 	if cs.Encoding != "" {
-		ext = ".txt." + cs.Encoding
+		ext = ".txt." + strings.SplitN(cs.Encoding, ":", 2)[0]
 	}
 	path := c01WriteFile(fmt.Sprintf("f%d-%d%s", c.Shard, c01Seq, ext), content, cs.Encoding)
 	defer os.Remove(path)
@@ -170,6 +216,9 @@ func c01Sig(content []byte, cs c01Case, kind string) string {
 	if maxLine+2 > 32*1024 {
 		return "line-longer-than-transport-buffer"
 	}
+	if strings.HasPrefix(cs.Encoding, "zst:frames") {
+		return "zstd-file-of-several-frames-cut-after-the-first-frame"
+	}
 	if kind != "differs" {
 		return kind
 	}
@@ -193,6 +242,15 @@ func c01Cases(thorough bool, emit func(cs c01Case, content []byte)) {
 		}
 		emit(c01Case{Content: s, M: 1024, LogLevel: "info"}, []byte(s))
 	})
+	// features of the compressed formats
+	for _, content := range []string{"a\nbb\nccc\n", "first line\nsecond line without newline", strings.Repeat("0123456789 a longer file\n", 700), "x", ""} {
+		for _, enc := range []string{"gz:members=2", "gz:members=3", "gz:empty-first-member", "gz:header", "gz:stored", "zst:frames=2", "zst:frames=3"} {
+			if content == "" && strings.HasPrefix(enc, "zst:") {
+				continue // a zstd file made of empty frames only: the zstd library itself reports an error (not dtail's)
+			}
+			emit(c01Case{Content: content, Desc: enc, M: 1024, Encoding: enc, LogLevel: "error"}, []byte(content))
+		}
+	}
 	// slow reads: the read spans the reader's periodic truncation check (3 s) and poll timers
 	for _, content := range []string{"a\nb", "a\nb\n", "xxxxxxxxxxxx\nlast", "", strings.Repeat("yyyyyyy\n", 300) + "last", strings.Repeat("yyyyyyy\n", 300)} {
 		for _, enc := range []string{"", "gz", "gzip", "zst"} {
@@ -333,7 +391,7 @@ func init() {
 		ID:    "C01",
 		Level: "exploration",
 		Rule: "file contents = all sequences of <=3 (quick) / <=4 (thorough) tokens over 16 byte tokens (0x00, 'a', newline, '.', the wire delimiter byte 0xAC alone and inside UTF-8 characters, 0xFF, '|', space, ';', 'REMOTE|', CR, " +
-			"runs of 7/8/9 bytes around MaxLineLength 8); gzip/.gzip/zstd encodings and the default log level on a delimiter-free alphabet; a long-line family (one line of M-1, M, M+1, 2M, 2M+1 and 32767..65537 bytes, " +
+			"runs of 7/8/9 bytes around MaxLineLength 8); gzip/.gzip/zstd encodings and the default log level on a delimiter-free alphabet; format features of the compressed files (gzip files of 2-3 members with boundaries inside a line, an empty first member, header fields, stored blocks; zstd files of 2-3 frames); a long-line family (one line of M-1, M, M+1, 2M, 2M+1 and 32767..65537 bytes, " +
 			"first/middle/last, with/without final newline, plain/gz/zst) for M in {8, 1024, 100000} (+ 1 MiB thorough).  Each runs the real dcat main body (--plain --logLevel error --cfg none, serverless) under the controlled scheduler; " +
 			"oracle: stdout == content with a newline inserted after every M consecutive non-newline bytes, exit status 0; non-trivial = non-empty content",
 		Assumptions: []string{
